@@ -44,7 +44,9 @@ class Env:
         from bloqade.shuttle.codegen.taskgen import TraceInterpreter, reverse_path
         from bloqade.shuttle.dialects.path import Path
         from kirin.dialects import ilist
+        from gen import native_filled
         names = list(dev.kernel.arg_names[1:])
+        args, kw = native_filled.real(tuple(args)), {k: native_filled.real(v) for k, v in kw.items()}
         ordered = list(args) + [kw[n] for n in names[len(args):]]
         if len(ordered) != len(names) or set(kw) - set(names[len(args):]):
             raise NativeError("bad arguments")
@@ -99,6 +101,9 @@ class Env:
     def emit(self, ev, label):
         if self.stack:
             raise NativeError("only device calls are allowed inside a block")
+        # a filled grid of the native evaluation becomes the library's class here, by its constructor alone
+        from gen import native_filled
+        ev = native_filled.real(tuple(ev))
         self.events.append(ev)
         self.labels.append(label)
 
@@ -118,6 +123,7 @@ def _f(v):
 
 
 def namespace(env, kernel_ns):
+    from gen import native_filled as NF
     from bloqade.geometry.dialects import grid as real_grid
     from kirin.dialects import ilist
     S = env.S
@@ -126,7 +132,7 @@ def namespace(env, kernel_ns):
         v = t.get(k)
         if v is None:
             raise NativeError(f"{what} {k} not found")
-        return v
+        return NF.wrap(v)
     schedule = pytypes.SimpleNamespace(
         device_fn=lambda k, xt, yt: Dev(env, k, xt, yt),
         reverse=lambda d: Dev(env, d.kernel, d.xt, d.yt, not d.rev),
@@ -152,14 +158,12 @@ def namespace(env, kernel_ns):
         sub_grid=lambda g, xs, ys: g.get_view(xs, ys), shape=lambda g: g.shape,
         get_xpos=lambda g: ilist.IList(list(g.x_positions)), get_ypos=lambda g: ilist.IList(list(g.y_positions)),
         repeat=lambda g, a, b, c, d: g.repeat(a, b, _f(c), _f(d)))
-    from bloqade.shuttle.dialects.filled.types import FilledGrid
-
     def _parent(g):
-        if not isinstance(g, FilledGrid):
+        if not isinstance(g, NF.NativeFilled):
             raise NativeError("filled grid expected")
         return g.parent
     filled = pytypes.SimpleNamespace(
-        vacate=lambda g, l: FilledGrid.vacate(g, list(l)), fill=lambda g, l: FilledGrid.fill(g, list(l)), get_parent=_parent,
+        vacate=lambda g, l: NF.vacate(g, list(l)), fill=lambda g, l: NF.fill(g, list(l)), get_parent=_parent,
         shift=lambda g, dx, dy: g.shift(_f(dx), _f(dy)), scale=lambda g, a, b: g.scale(_f(a), _f(b)),
         repeat=lambda g, a, b, c, d: g.repeat(a, b, _f(c), _f(d)))
     from typing import Literal
@@ -185,8 +189,9 @@ def run_native(src, args, arch_spec, kernel_ns=None, main="main"):
         kernel_ns = {k: v for k, v in kernels.define(tw).items() if k in move_prog.TWEEZERS}
     env = Env(arch_spec)
     try:
+        from gen import native_filled
         ns = kernels.define_native(mv, namespace(env, kernel_ns))
-        ns[main](*args)
+        ns[main](*native_filled.wrap(tuple(args)))
         return ("ok", env.events, env.labels, env.early_returns)
     except Exception as e:
         return ("err", env.events, env.labels, type(e).__name__ + ": " + str(e)[:120])
